@@ -1,6 +1,6 @@
 (* Dispatch.v — one entry point `run op arg` for every executable model and spec.
    Used identically by the extracted runner (coq/extract) and by `Eval vm_compute` re-evaluation. *)
-From Verif Require Import PyVal Rows Enc ComparableGen AsIndicesGen Order Sort SortSpec Dedup DedupSpec Basics SetOps SetSpec Joins Relational HashJoins Reductions GroupSpec Machines Selects.
+From Verif Require Import PyVal Rows Enc ComparableGen AsIndicesGen Order Sort SortSpec Dedup DedupSpec Basics SetOps SetSpec Joins Relational HashJoins Reductions GroupSpec Machines Selects Transforms.
 Open Scope Z_scope.
 
 Definition run_cmp (arg : val) : val :=
@@ -584,6 +584,141 @@ Definition run_search (arg : val) : val :=
   | _ => bad_input
   end.
 
+(* ---- row / field transforms (C12, C19) ---------------------------------------------------------------------- *)
+Definition dec_fieldvalue (v : val) : option fieldvalue :=
+  match v with
+  | VSeq _ [VStr tag; x] => if zs_eqb tag "const" then Some (FConst x)
+                            else if zs_eqb tag "fn" then match dec_Z x with Some i => Some (FFn i) | None => None end
+                            else None
+  | _ => None
+  end.
+Definition dec_conv (v : val) : option conv :=
+  match v with
+  | VNone => Some CNone
+  | VSeq _ [VStr tag; x] => if zs_eqb tag "fn" then match dec_Z x with Some i => Some (CFn i) | None => None end
+                            else if zs_eqb tag "dict" then match dec_pairs x with Some d => Some (CDict d) | None => None end
+                            else None
+  | _ => None
+  end.
+Definition dec_policy (v : val) : option policy :=
+  match v with
+  | VStr s => if zs_eqb s "inline" then Some PolInline else None
+  | _ => match dec_bool v with Some true => Some PolTrue | Some false => Some PolFalse | None => None end
+  end.
+Definition dec_rpred (v : val) : option rpred :=
+  match v with
+  | VSeq _ [VStr tag; n] => if zs_eqb tag "len" then match dec_Z n with Some n' => Some (RLen n') | None => None end else None
+  | VSeq _ [VStr tag; f; vp] => if zs_eqb tag "field" then match dec_vpred vp with Some p => Some (RField f p) | None => None end
+                                else None
+  | _ => None
+  end.
+Definition dec_mapping (v : val) : option mapping :=
+  match v with
+  | VSeq _ [VStr tag; f] => if zs_eqb tag "field" then Some (MField f)
+                            else if zs_eqb tag "rowfn" then match dec_Z f with Some i => Some (MRowFn i) | None => None end
+                            else None
+  | VSeq _ [VStr tag; f; c] => if zs_eqb tag "fieldconv" then match dec_conv c with Some c' => Some (MFieldConv f c') | None => None end
+                               else None
+  | _ => None
+  end.
+Definition dec_tables (v : val) : option (list table) := match v with VSeq _ l => dec_all dec_table l | _ => None end.
+
+Definition opt_gen (o : option gen) : val := match o with Some g => enc_gen g | None => bad_input end.
+
+Definition run_transform (arg : val) : val :=
+  match arg with
+  | VSeq _ (VStr nm :: args) =>
+      opt_gen
+      (match args with
+       | [a; b; t] =>
+           if zs_eqb nm "cut" then match a with VSeq _ spec => option_map (cut_model spec b) (dec_table t) | _ => None end
+           else if zs_eqb nm "cutout" then match a with VSeq _ spec => option_map (cutout_model spec b) (dec_table t) | _ => None end
+           else if zs_eqb nm "filldown" then match a with VSeq _ spec => option_map (filldown_model spec b) (dec_table t) | _ => None end
+           else if zs_eqb nm "movefield" then match dec_Z b, dec_table t with
+                                         | Some i, Some t' => Some (movefield_model a i VNone t') | _, _ => None end
+           else if zs_eqb nm "cat" then match dec_opt dec_row b, dec_tables t with
+                                        | Some h, Some ts => Some (cat_model a h ts) | _, _ => None end
+           else if zs_eqb nm "rename" then match dec_pairs a, dec_bool b, dec_table t with
+                                           | Some sp, Some st, Some t' => Some (rename_model sp st t') | _, _, _ => None end
+           else if zs_eqb nm "sortheader" then match dec_bool a, dec_table t with
+                                               | Some r, Some t' => Some (sortheader_model r b t') | _, _ => None end
+           else None
+       | [a; t] =>
+           if zs_eqb nm "annex" then option_map (annex_model a) (dec_tables t)
+           else if zs_eqb nm "setheader" then match dec_row a, dec_table t with
+                                              | Some h, Some t' => Some (setheader_model h t') | _, _ => None end
+           else if zs_eqb nm "extendheader" then match dec_row a, dec_table t with
+                                                 | Some h, Some t' => Some (extendheader_model h t') | _, _ => None end
+           else if zs_eqb nm "pushheader" then match dec_row a, dec_table t with
+                                               | Some h, Some t' => Some (pushheader_model h t') | _, _ => None end
+           else if zs_eqb nm "prefixheader" then option_map (prefixheader_model a false) (dec_table t)
+           else if zs_eqb nm "suffixheader" then option_map (prefixheader_model a true) (dec_table t)
+           else if zs_eqb nm "fillright" then option_map (fillright_model a) (dec_table t)
+           else if zs_eqb nm "fillleft" then option_map (fillleft_model a) (dec_table t)
+           else None
+       | [a; b; c; t] =>
+           if zs_eqb nm "stack" then match dec_bool b, dec_bool c, dec_tables t with
+                                     | Some tr, Some pd, Some ts => Some (stack_model a tr pd ts) | _, _, _ => None end
+           else if zs_eqb nm "addrownumbers" then match dec_Z a, dec_Z b, dec_table t with
+                                                  | Some st, Some sp, Some t' => Some (addrownumbers_model st sp c t')
+                                                  | _, _, _ => None end
+           else if zs_eqb nm "fieldmap" then
+             match a, dec_policy b, dec_table t with
+             | VSeq _ ms, Some pol, Some t' =>
+                 match dec_all (fun x => match x with
+                                         | VSeq _ [o; m] => match dec_mapping m with Some m' => Some (o, m') | None => None end
+                                         | _ => None end) ms with
+                 | Some ms' => Some (fieldmap_model ms' pol c t')
+                 | None => None
+                 end
+             | _, _, _ => None
+             end
+           else if zs_eqb nm "rowmap" then match dec_Z a, dec_row b, dec_policy c, dec_table t with
+                                           | Some i, Some h, Some pol, Some t' => Some (rowmap_model i h pol t')
+                                           | _, _, _, _ => None end
+           else if zs_eqb nm "rowmapmany" then match dec_Z a, dec_row b, dec_policy c, dec_table t with
+                                               | Some i, Some h, Some pol, Some t' => Some (rowmapmany_model i h pol t')
+                                               | _, _, _, _ => None end
+           else None
+       | [a; b; c; d; t] =>
+           if zs_eqb nm "addfield" then match dec_fieldvalue b, dec_opt dec_Z c, dec_table t with
+                                        | Some fv, Some ix, Some t' => Some (addfield_model a fv ix d t')
+                                        | _, _, _ => None end
+           else if zs_eqb nm "addcolumn" then match b, dec_opt dec_Z c, dec_table t with
+                                              | VSeq _ col, Some ix, Some t' => Some (addcolumn_model a col ix d t')
+                                              | _, _, _ => None end
+           else if zs_eqb nm "convert" then
+             match a, dec_policy b, dec_opt dec_rpred d, dec_table t with
+             | VSeq _ cs, Some pol, Some wh, Some t' =>
+                 match dec_all (fun x => match x with
+                                         | VSeq _ [k; cv] => match dec_conv cv with Some c' => Some (k, c') | None => None end
+                                         | _ => None end) cs with
+                 | Some cs' => Some (convert_model cs' pol c wh t')
+                 | None => None
+                 end
+             | _, _, _, _ => None
+             end
+           else None
+       | _ => None
+       end)
+  | _ => bad_input
+  end.
+
+(* addfields: (defs, missing, table)  def = (name, fieldvalue) | (name, fieldvalue, index) *)
+Definition run_addfields (arg : val) : val :=
+  match arg with
+  | VSeq _ [VSeq _ defs; missing; t] =>
+      match dec_all (fun x => match x with
+                              | VSeq _ [n; fv] => match dec_fieldvalue fv with Some f => Some (n, f, None) | None => None end
+                              | VSeq _ [n; fv; i] => match dec_fieldvalue fv, dec_Z i with
+                                                     | Some f, Some i' => Some (n, f, Some i') | _, _ => None end
+                              | _ => None end) defs, dec_table t with
+      | Some ds, Some t' => enc_gen (addfields_model ds missing t')
+      | _, _ => bad_input
+      end
+  | _ => bad_input
+  end.
+
 Definition run (op : list Z) (arg : val) : val :=
   if zs_eqb op "cmp" then run_cmp arg
   else if zs_eqb op "sort" then run_sort arg
@@ -609,6 +744,8 @@ Definition run (op : list Z) (arg : val) : val :=
   else if zs_eqb op "reduce" then run_reduce arg
   else if zs_eqb op "group_spec" then run_group_spec arg
   else if zs_eqb op "const_true" then vbool true
+  else if zs_eqb op "transform" then run_transform arg
+  else if zs_eqb op "addfields" then run_addfields arg
   else if zs_eqb op "select" then run_select arg
   else if zs_eqb op "rowslice" then run_rowslice arg
   else if zs_eqb op "tail" then run_tail arg
